@@ -622,7 +622,7 @@ func (g *fgen) genBlockBody(n int, depth int, fnTop bool) *Stmt {
 			case g.r.Chance(15) && depth >= 1:
 				init = g.genFunLit(depth - 1)
 				isFun = true
-			case g.r.Chance(18):
+			case g.r.Chance(6):
 				init = konst("str", 7) // "2": ++/-- on it needs ToNumber
 				sl.b.holdsStr = true
 			case g.r.Chance(8):
@@ -652,7 +652,7 @@ func (g *fgen) varDecls(pre []int, depth int) []*Stmt {
 	var out []*Stmt
 	for _, v := range pre {
 		var init *Expr
-		switch g.r.Pick(20, 15, 65) {
+		switch g.r.Pick(6, 29, 65) {
 		case 0:
 			init = konst("str", 7)
 			if b := g.resolve(v); b != nil {
@@ -701,7 +701,7 @@ func (g *fgen) genStmt(depth int) *Stmt {
 		}
 		return &Stmt{K: "expr", E: g.genEffect(1)}
 	}
-	switch g.r.Pick(22, 20, 8, 9, 5, 8, 3, 7, 3, 5, 4) {
+	switch g.r.Pick(22, 20, 8, 9, 5, 8, 3, 7, 3, 2, 4) {
 	case 0:
 		return &Stmt{K: "log", E: g.genExpr(depth)}
 	case 1:
